@@ -26,14 +26,15 @@ try:
     if b.returncode != 0:
         print('{"found": false, "replay_build_failed": true}')
         sys.exit(0)
-    if pat.startswith("C20") or pat.startswith("C18") or pat.startswith("C16"):
+    det = bool(os.environ.get("VX_REPLAY_DET"))
+    if not det and (pat.startswith("C20") or pat.startswith("C18") or pat.startswith("C16")):
         # the `varlink` binary of the tree under test (own target dir; the workspace's dependencies are vendored in the cargo registry)
         tdir = os.path.join(build, "cli-target")
         c = subprocess.run(["cargo", "build", "--release", "--offline", "-q", "-p", "varlink-cli"], cwd=repo,
                            env=dict(env, CARGO_TARGET_DIR=tdir), capture_output=True, text=True, timeout=1500)
         if c.returncode == 0:
             env["VX_CLI_BIN"] = os.path.join(tdir, "release", "varlink")
-    if pat.startswith("C19") or pat.startswith("C08") or pat.startswith("C16"):
+    if not det and (pat.startswith("C19") or pat.startswith("C08") or pat.startswith("C16")):
         tdir = os.path.join(build, "cert-target")
         c = subprocess.run(["cargo", "build", "--release", "--offline", "-q", "-p", "varlink-certification"], cwd=repo,
                            env=dict(env, CARGO_TARGET_DIR=tdir), capture_output=True, text=True, timeout=1500)
